@@ -3,6 +3,7 @@ package checks
 import (
 	"fmt"
 	"github.com/bartossh/Computantis/src/accountant"
+	"github.com/bartossh/Computantis/src/spice"
 	"time"
 
 	"verifharness/core"
@@ -96,13 +97,13 @@ func init() {
 	core.Register(&core.Check{
 		Spec: core.Spec{
 			Prop:        "C09",
-			Rule:        "Same scenario engine. After every operation the snapshot must be a well-formed DAG: declared-parent graph acyclic (Kahn); every live non-genesis vertex has an edge from each distinct declared parent that is live and from nothing else; a declared parent that is not live is checkpointed; graph id = storage key = vertex hash; hash, sealing, issuer and receiver signatures recompute (harness's own rendering and the node's own verify). Every vertex returned by CreateLeaf references tips of the previous snapshot that survived the call and has weight max(parents)+1; a failed add leaves no new vertex or index entry. One batch runs a two-node 1060-vertex ledger through a truncation and 60 hostile operations afterwards (weights above 1000, checkpointed parents); another cancels a truncation in the middle of its persisting walk and lets further truncations follow. Non-trivial = every snapshot after a mutating operation; distinct by (operation, outcome, tip/live/parked buckets).",
+			Rule:        "Same scenario engine. After every operation the snapshot must be a well-formed DAG: declared-parent graph acyclic (Kahn); every live non-genesis vertex has an edge from each distinct declared parent that is live and from nothing else; a declared parent that is not live is checkpointed; graph id = storage key = vertex hash; hash, sealing, issuer and receiver signatures recompute (harness's own rendering and the node's own verify). Every vertex returned by CreateLeaf references tips of the previous snapshot that survived the call and has weight max(parents)+1; a failed add leaves no new vertex or index entry. After every scenario a fresh node syncs from node 0 and is held to the same structural oracle. One batch runs a two-node 1060-vertex ledger through a truncation and 60 hostile operations afterwards (weights above 1000, checkpointed parents); another cancels a truncation in the middle of its persisting walk and lets further truncations follow. Non-trivial = every snapshot after a mutating operation; distinct by (operation, outcome, tip/live/parked buckets).",
 			Assumptions: []string{ledgerAssume},
 			MinEvals:    300, MinNontriv: 10,
 		},
 		Plan: ledgerPlan(8, 56),
 		Worker: func(w *core.WorkerCtx) {
-			runRandomScenarios(w, []string{"C09"}, w.Pick(12, 60), func(p *ledger.Profile) { p.PForge = 0.25; p.PReplay = 0.12 }, nil)
+			runRandomScenarios(w, []string{"C09"}, w.Pick(12, 60), func(p *ledger.Profile) { p.PForge = 0.25; p.PReplay = 0.12 }, c09SyncAfter)
 			c09Truncation(w)
 		},
 	})
@@ -188,4 +189,25 @@ func c03SyncReplay(d *ledger.Driver) {
 		world.CloseNode(n)
 	}
 	world.Res.Count("c03_sync_replay_streams", 2)
+}
+
+// c09SyncAfter: the well-formedness holds on every node, also on one that obtained its ledger by syncing: a fresh node
+// loads the stream of node 0 (snapshot oracles run on it: edges from exactly the declared live parents, ids, hashes,
+// seals) and then takes part in a few more operations.
+func c09SyncAfter(d *ledger.Driver) {
+	world := d.W
+	src := world.Nodes[0]
+	if s, err := ledger.TakeSnap(src.Book); err != nil || len(s.Stored) > 0 {
+		return
+	}
+	n, err := world.AddSyncedNode("SY", src)
+	if err != nil || n == nil {
+		return
+	}
+	world.NontrivFor("C09", "synced-node-structure")
+	for i := 0; i < 3; i++ {
+		t := world.NewTrx(world.Users[0], world.Users[1].Addr, spice.Melange{}, []byte("after sync"))
+		world.Propose(n, &t, "on the synced node")
+	}
+	world.Res.Count("c09_synced_nodes_checked", 1)
 }
